@@ -358,6 +358,9 @@ structure Sys where
   cbs : List Cb := []
   closed : Bool := false
   nobuildSrv : List Nat := []       -- servers for which TransportBuilder.Build fails right now
+  boff : Nat := 0                   -- authority "b" is configured with the servers boff, boff+1, … of the top-level
+                                    -- list (its own index j is global server boff + j): with boff > 0 a fallback
+                                    -- server of the top-level authority is the primary of "b"
 deriving Repr
 
 def insertSorted (x : String) : List String → List String
@@ -406,6 +409,21 @@ def setChan (s : Sys) (i : Nat) (c : Chan) : Sys := { s with chans := s.chans.se
 def getAuth (s : Sys) (x : Nat) : Auth := if x = 0 then s.auth else s.authB
 def setAuth (s : Sys) (x : Nat) (a : Auth) : Sys := if x = 0 then { s with auth := a } else { s with authB := a }
 
+/-- first global server of authority `x`'s own server list -/
+def offOf (s : Sys) (x : Nat) : Nat := if x = 0 then 0 else s.boff
+
+def globCmd (off : Nat) : Cmd → Cmd
+  | .build i => .build (i + off)
+  | .release i => .release (i + off)
+  | .sub i k => .sub (i + off) k
+  | .unsub i k => .unsub (i + off) k
+
+/-- an event (global server index) as authority `x` sees it (index into its own server list) -/
+def locEv (off : Nat) : AEv → AEv
+  | .update srv gen t v es => .update (srv - off) gen t v es
+  | .failure srv after => .failure (srv - off) after
+  | e => e
+
 /-- which authority a resource name belongs to (XDSClient.getAuthorityForResource) -/
 def ownerOf (k : Key) : Nat := if k.name.startsWith "b_" then 1 else 0
 
@@ -429,10 +447,12 @@ def applyCmds (x : Nat) (s : Sys) (cmds : List Cmd) : Sys := cmds.foldl (applyCm
 def processEv (x : Nat) (s : Sys) (e : AEv) : Sys :=
   -- getChannelForADS fails for a server iff its transport cannot be built AND the client has no channel to it
   -- yet (an existing channel is shared without building anything): the authority's environment for this step
-  let a0 := ((getAuth s x).step (.env (s.nobuildSrv.filter fun i => !(getChan s i).opened))).auth
-  let o := a0.step e
+  let off := offOf s x
+  let nb := ((s.nobuildSrv.filter fun i => !(getChan s i).opened).filter (off ≤ ·)).map (· - off)
+  let a0 := ((getAuth s x).step (.env nb)).auth
+  let o := a0.step (locEv off e)
   let s := setAuth s x o.auth
-  let s := applyCmds x { s with cbs := s.cbs ++ o.cbs } o.cmds
+  let s := applyCmds x { s with cbs := s.cbs ++ o.cbs } (o.cmds.map (globCmd off))
   match e with
   | .update srv gen _ _ _ =>
     let c := getChan s srv
@@ -561,8 +581,9 @@ inductive Op
   | close
 deriving Repr
 
-def Sys.init (n : Nat) (ign : List Bool) : Sys :=
-  { auth := Auth.init n ign, authB := Auth.init n ign, chans := List.replicate n {}, up := List.replicate n true }
+def Sys.init (n : Nat) (ign : List Bool) (boff : Nat := 0) : Sys :=
+  { auth := Auth.init n ign, authB := Auth.init (n - boff) (ign.drop boff), chans := List.replicate n {},
+    up := List.replicate n true, boff := boff }
 
 /-- result tag of an op that does not produce a snapshot -/
 inductive Res | snap | tag (s : String)
